@@ -67,6 +67,9 @@ impl Property for C03 {
         let mut ops = g.gen_decls();
         ops.extend(g.gen_session());
         case.ops = to_text(&ops);
+        if cfg_rng.chance(1, 2) {
+            draw_knobs(&mut case, &mut cfg_rng);
+        }
         if index % 12 == 11 {
             draw_threaded(&mut case, &mut cfg_rng);
         }
